@@ -94,7 +94,9 @@ func (g *gramCtx) streamParam(fn *types.Func) (*types.Var, string) {
 }
 
 // Of extracts the grammar of fn.
-func (g *gramCtx) Of(fn *types.Func) ([]gtok, error) {
+func (g *gramCtx) Of(fn *types.Func) ([]gtok, error) { return g.ofCall(fn, nil, nil) }
+
+func (g *gramCtx) ofCall(fn *types.Func, parent *gramWalk, call *ast.CallExpr) ([]gtok, error) {
 	fd := g.decls[fn]
 	if fd == nil {
 		return nil, fmt.Errorf("no declaration for %s", fn.FullName())
@@ -108,7 +110,20 @@ func (g *gramCtx) Of(fn *types.Func) ([]gtok, error) {
 	}
 	g.stack[fn] = true
 	defer delete(g.stack, fn)
-	w := &gramWalk{g: g, pkg: g.pkgOf[fn], info: g.pkgOf[fn].TypesInfo, stream: sp, body: fd.Body}
+	w := &gramWalk{g: g, pkg: g.pkgOf[fn], info: g.pkgOf[fn].TypesInfo, stream: sp, body: fd.Body, fn: fn, parent: parent, argOf: map[types.Object]ast.Expr{}}
+	if call != nil && fd.Type.Params != nil {
+		k := 0
+		for _, fld := range fd.Type.Params.List {
+			for _, nm := range fld.Names {
+				if k < len(call.Args) {
+					if o := w.info.Defs[nm]; o != nil {
+						w.argOf[o] = call.Args[k]
+					}
+				}
+				k++
+			}
+		}
+	}
 	toks := w.block(fd.Body.List)
 	return toks, w.err
 }
@@ -120,6 +135,11 @@ type gramWalk struct {
 	stream *types.Var
 	body   *ast.BlockStmt
 	err    error
+	fn     *types.Func
+	// when this walk is an inlined callee: the caller's walk and the argument expression bound to each parameter
+	parent *gramWalk
+	argOf  map[types.Object]ast.Expr
+	inLoop int
 }
 
 func (w *gramWalk) isStream(e ast.Expr) bool {
@@ -226,6 +246,11 @@ func (w *gramWalk) stmt(s ast.Stmt) []gtok {
 			return init
 		}
 		out := init
+		if len(body) > 0 && len(els) == 0 && w.inLoop > 0 && !w.condOnParam(y.Cond) {
+			// a filter inside a loop (`if live { write }` is the same as `if !live { continue }; write`): the body grammar
+			// is unchanged; that count and body agree on the filter is a separate obligation (C08.R4)
+			return append(out, body...)
+		}
 		if len(body) > 0 {
 			out = append(out, gtok{kind: "OPT", sub: body, pos: y.Pos()})
 		}
@@ -238,13 +263,17 @@ func (w *gramWalk) stmt(s ast.Stmt) []gtok {
 		if y.Init != nil {
 			pre = w.stmt(y.Init)
 		}
+		w.inLoop++
 		body := w.block(y.Body.List)
+		w.inLoop--
 		if len(body) == 0 {
 			return pre
 		}
 		return append(pre, gtok{kind: "REP", sub: body, pos: y.Pos()})
 	case *ast.RangeStmt:
+		w.inLoop++
 		body := w.block(y.Body.List)
+		w.inLoop--
 		if len(body) == 0 {
 			return nil
 		}
@@ -263,6 +292,25 @@ func (w *gramWalk) stmt(s ast.Stmt) []gtok {
 		return w.stmt(y.Stmt)
 	}
 	return nil
+}
+
+// condOnParam: the condition mentions a parameter of the function being walked (a mode switch such as `header`).
+func (w *gramWalk) condOnParam(e ast.Expr) bool {
+	found := false
+	sig := w.fn.Type().(*types.Signature)
+	ast.Inspect(e, func(n ast.Node) bool {
+		if id, ok := n.(*ast.Ident); ok {
+			if o := w.info.Uses[id]; o != nil {
+				for i := 0; i < sig.Params().Len(); i++ {
+					if sig.Params().At(i) == o {
+						found = true
+					}
+				}
+			}
+		}
+		return true
+	})
+	return found
 }
 
 func mentionsErr(e ast.Expr) bool {
@@ -323,6 +371,9 @@ func (w *gramWalk) lenOf(e ast.Expr) int {
 		obj := w.info.Uses[y]
 		if obj == nil {
 			obj = w.info.Defs[y]
+		}
+		if a, ok := w.argOf[obj]; ok && w.parent != nil {
+			return w.parent.lenOf(a) // a parameter: its length is the caller's argument's length
 		}
 		n := -1
 		ast.Inspect(w.body, func(nd ast.Node) bool {
@@ -412,7 +463,7 @@ func (w *gramWalk) expr(e ast.Expr) []gtok {
 			}
 		}
 		if passes && strings.HasPrefix(pkg, modPath) {
-			sub, err := w.g.Of(callee)
+			sub, err := w.g.ofCall(callee, w, call)
 			if err != nil {
 				w.err = err
 				return false
